@@ -1,4 +1,5 @@
 import EphVerif.Lemmas.C07Closest
+import EphVerif.Lemmas.C07Retain
 
 /-!
 # C07 — routing table answers XOR-closest live peers and keeps bucket shape
@@ -138,6 +139,61 @@ theorem added_single (self : Id) (t0 : Int) (ops : List Op) (hs : WfId self) (ho
   exact justRegistered_upsert h w idBits_eq bucketSize_eq (List.foldl step (State.init self t0) ops).now
     ⟨id, addr, (List.foldl step (State.init self t0) ops).now + ttl⟩ hid (by rw [hself]; exact hne)
 
+/-- **retained** (what the table holds is fixed by the registration history): after any history,
+    `register_peer` of any id costs no *other* unexpired contact its place, except — when the id is
+    new, not the local one, and its bucket already holds 16 unexpired contacts — the front (least
+    recently registered) entry of that bucket. -/
+theorem retained (self : Id) (t0 : Int) (ops : List Op) (hs : WfId self) (ho : OpsWf ops)
+    (id : Id) (addr : String) (exp : Int) (hid : WfId id) :
+    Retained (toNat self) (dumpOf (reach self t0 ops).table)
+      (dumpOf (reach self t0 (ops ++ [.reg id addr exp])).table) (reach self t0 ops).now (toNat id) := by
+  have h : Inv (reach self t0 ops).table := (Inv.empty self).run ops
+  have w : WfT (reach self t0 ops).table := WfT.run (Inv.empty self) (WfT.empty hs) ho
+  have hself : (reach self t0 ops).table.self = self := run_self _ ops
+  simp only [reach, run, List.foldl_append, List.foldl_cons, List.foldl_nil] at *
+  simp only [step, registerPeer]
+  have := retained_upsert h w idBits_eq bucketSize_eq (List.foldl step (State.init self t0) ops).now
+    (if exp = 0 then ⟨id, addr, (List.foldl step (State.init self t0) ops).now⟩ else ⟨id, addr, exp⟩)
+    (by split <;> exact hid)
+  have e1 : (if exp = 0 then (⟨id, addr, (List.foldl step (State.init self t0) ops).now⟩ : Contact) else ⟨id, addr, exp⟩).id = id := by
+    split <;> rfl
+  rw [e1, hself] at this
+  exact this
+
+/-- the same for the `upsert_bucket` call of `add_contact` -/
+theorem retained_add (self : Id) (t0 : Int) (ops : List Op) (hs : WfId self) (ho : OpsWf ops)
+    (id : Id) (addr : String) (ttl : Int) (hid : WfId id) :
+    Retained (toNat self) (dumpOf (reach self t0 ops).table)
+      (dumpOf (reach self t0 (ops ++ [.add id addr ttl])).table) (reach self t0 ops).now (toNat id) := by
+  have h : Inv (reach self t0 ops).table := (Inv.empty self).run ops
+  have w : WfT (reach self t0 ops).table := WfT.run (Inv.empty self) (WfT.empty hs) ho
+  have hself : (reach self t0 ops).table.self = self := run_self _ ops
+  simp only [reach, run, List.foldl_append, List.foldl_cons, List.foldl_nil] at *
+  have := retained_upsert h w idBits_eq bucketSize_eq (List.foldl step (State.init self t0) ops).now
+    ⟨id, addr, (List.foldl step (State.init self t0) ops).now + ttl⟩ hid
+  rw [hself] at this
+  exact this
+
+/-- **a refresh evicts nobody**: if the registered id is already held by an unexpired contact,
+    every unexpired contact with another id is still held afterwards -/
+theorem refresh_evicts_nobody {own : Nat} {before after : Dump} {now : Int} {id : Nat}
+    (h : Retained own before after now id)
+    (hheld : ∃ x ∈ entries before, now < x.exp ∧ x.id = id) :
+    ∀ e ∈ entries before, now < e.exp → e.id ≠ id → e ∈ entries after := by
+  intro e he hlt hne
+  simp only [entries, List.mem_flatMap] at he
+  obtain ⟨b, hb, heb⟩ := he
+  rcases h b hb e heb hlt hne with hin | ⟨hnew, _⟩
+  · exact hin
+  · obtain ⟨x, hx, hxl, hxid⟩ := hheld
+    exact absurd hxid (hnew x (List.mem_filter.2 ⟨hx, by simpa [unexpiredAt] using hxl⟩))
+
+/-- queries and clock moves do not change the table at all -/
+theorem query_keeps_table (self : Id) (t0 : Int) (ops : List Op) (target : Id) (k : Nat) (d : Int) :
+    (reach self t0 (ops ++ [.closest target k])).table = (reach self t0 ops).table ∧
+    (reach self t0 (ops ++ [.adv d])).table = (reach self t0 ops).table := by
+  simp [reach, run, List.foldl_append, step]
+
 /-- **closest-peer queries.**  After any history, `closest_peers(target, k)` returns min(k, n) of
     the n unexpired held contacts, in strictly increasing XOR distance (as 256-bit numbers) to the
     target, all of them unexpired held contacts, and every unexpired held contact it leaves out
@@ -270,5 +326,16 @@ example : Shape (toNat (idOf 0 0)) (dumpOf (reach (idOf 0 0) 10 seventeen).table
 example : JustRegistered (dumpOf (reach (idOf 0 0) 10 (seventeen ++ [.reg (idOf 128 5) "new" 0])).table)
     (toNat (idOf 128 5)) "new" 10 :=
   registered_single _ _ _ (idOf_wf _ _ (by omega) (by omega)) seventeen_wf _ _ _ (idOf_wf _ _ (by omega) (by omega)) (by decide)
+
+/-- non-vacuity of `retained`: a full bucket (16 of the 17-history's ids are left), refresh of a
+    member that is not the oldest — all 16 stay, the refreshed one at the back with its new address;
+    then a new id — exactly the front entry goes -/
+example : ((reach (idOf 0 0) 10 (seventeen ++ [.reg (idOf 128 9) "again" 100])).table.buckets 255).map
+    (fun c => (c.id.getLast?, c.addr == "again")) =
+    ((List.range 16).map (fun k => (some (k + 2), false))).filter (·.1 != some 9) ++ [(some 9, true)] := by decide
+
+example : Retained (toNat (idOf 0 0)) (dumpOf (reach (idOf 0 0) 10 seventeen).table)
+    (dumpOf (reach (idOf 0 0) 10 (seventeen ++ [.reg (idOf 128 9) "again" 100])).table) 10 (toNat (idOf 128 9)) :=
+  retained _ _ _ (idOf_wf _ _ (by omega) (by omega)) seventeen_wf _ _ _ (idOf_wf _ _ (by omega) (by omega))
 
 end EphVerif.C07
